@@ -234,15 +234,19 @@ PROPS['C10'] = dict(
 
 PROPS['C05'] = dict(
     category='other',
-    technique='Kani contracts on the framing kernels (header recognition, skip rule, version line) over symbolic ASCII lines / listed templates; driver harnesses with a recording DecodeBeatmap impl (thorough tier)',
-    level_text='bounded stand-ins: Section::try_from_line accepts exactly `[Name]` for the 11 names over every ASCII line up to 15 bytes; should_skip_line is true exactly for empty lines and lines whose first non-blank text is `//` (every line up to 5 bytes over a 5-letter alphabet); version-line handling on 8 templates; Decoder::curr_line removes trailing whitespace only (every 3-byte ASCII line); line reading per C10. The driver (which line reaches which parser) is checked on listed files only in the thorough tier',
-    level_note='driver-level equivalence for arbitrary files is not decided in the quick tier; non-UTF-8 encodings are C10',
-    verus=[], kani=['support.kc', 'c05.kc', 'decoder.kc'],
+    technique='Verus contracts on the extracted driver (DecodeBeatmap::decode, parse_version, parse_first_section, parse_section) against a recursive reference driver over the line sequence, with a ghost log of parser calls; Kani contracts on the three string predicates the driver uses and on Decoder::curr_line',
+    level_text='proved (Verus, files of every length, termination included): the sequence of (section parser, line) calls made by DecodeBeatmap::decode is exactly that of the reference driver of the property -- version taken from the first non-blank line if it carries the prefix, otherwise the latest version and that line itself may open a section; everything before the first recognised header skipped; every later line that is neither skipped (blank / comment) nor a recognised header handed to the parser OF THE MOST RECENT recognised header (the Section -> parse_* table is part of the contract); parser errors ignored; an unrecognised bracketed line goes to the current parser and neither opens nor closes a section; sections may repeat in any order. Bounded stand-ins (Kani) for the predicates the proof leaves uninterpreted: Section::try_from_line accepts exactly `[Name]` for the 11 names (every ASCII line up to 15 bytes); should_skip_line is true exactly for empty lines and lines whose first non-blank text is `//` (lines up to 5 bytes over a 5-letter alphabet); a line starting with `[` is never skipped (up to 15 bytes); version-line handling on 8 templates; Decoder::curr_line removes trailing whitespace only (every 3-byte ASCII line); line reading per C10',
+    level_note='the reader is modelled by the sequence of lines read_line delivers (C08-C10); rule R11 turns the function items `Self::parse_x` / the fn-pointer parameter into tokens naming the function (Verus has no function pointers); code under #[cfg(feature = "tracing")] is removed (R12, feature off as in the pinned test command); the final `state.into()` conversion is C07',
+    verus=[dict(unit='drv', tier='quick')], kani=['support.kc', 'c05.kc', 'decoder.kc'],
     only_prefix=['c05_'],
     kani_functions=['src/section/mod.rs :: impl Section :: fn try_from_line', 'src/decode.rs :: trait DecodeBeatmap :: fn should_skip_line', 'src/format_version.rs :: fn try_version_from_line', 'src/reader/decoder.rs :: impl Decoder :: fn curr_line',
-                    'src/decode.rs :: trait DecodeBeatmap :: fn decode / fn parse_version / fn parse_first_section / fn parse_section (thorough tier)'],
-    explanation='see level_text', trusted_base=COMMON_TRUST + ['naive_memchr / naive_memrchr stand-ins for core::slice::memchr'], assumptions=[],
-    not_decided=['files beyond the listed ones', 'lines longer than the bounds'],
+                    'src/decode.rs :: trait DecodeBeatmap :: fn decode / fn parse_version / fn parse_first_section / fn parse_section (recording-impl harnesses, thorough tier)'],
+    explanation='see level_text',
+    trusted_base=COMMON_TRUST + ['naive_memchr / naive_memrchr stand-ins for core::slice::memchr',
+                                 'verus unit drv: Decoder modelled as the sequence of lines it delivers; call of a parser = one entry in a ghost log; header / skip / version predicates uninterpreted (bounded Kani obligations c05_*)',
+                                 'R11: function items used as values -> tokens naming the function', 'R12: cfg(feature = "tracing") code removed'],
+    assumptions=['a recognised header line is never a skipped line (bounded Kani obligation c05_header_never_skipped)'],
+    not_decided=['the three string predicates beyond their bounds', 'non-UTF-8 encodings are C10'],
 )
 
 PROPS['C01'] = dict(
